@@ -1,5 +1,67 @@
-"""Contract self-test (thorough tier): every stored mutant must make its named obligation fail."""
+"""Contract self-test (thorough tier, DESIGN.md 2.7): every stored mutant — a deliberate property-breaking edit
+of the repository text — is applied to a scratch copy of the files a unit reads and MUST make a named obligation
+fail.  A surviving mutant means the contract is too weak (exit 2, never an alarm on /repo)."""
+import os
+import shutil
+import tomllib
+
+from .common import REPO, UNITS, Undecided, rmtree, scratch
+from .extract import Unit
+from .verus import verify_unit
+
+
+def load_mutants(unit):
+    p = os.path.join(UNITS, unit, "mutants.toml")
+    if not os.path.exists(p):
+        return []
+    with open(p, "rb") as f:
+        return tomllib.load(f).get("mutant", [])
+
+
+def run_one(unit, m):
+    u = Unit(unit)
+    files = sorted({it["file"] for it in u.cfg.get("item", [])})
+    root = scratch("mut-" + unit)
+    try:
+        for rel in files:
+            dst = os.path.join(root, rel)
+            os.makedirs(os.path.dirname(dst), exist_ok=True)
+            shutil.copy(os.path.join(REPO, rel), dst)
+        tgt = os.path.join(root, m["file"])
+        txt = open(tgt, encoding="utf-8").read()
+        if txt.count(m["find"]) != 1:
+            return "stale", f"mutant {m['name']}: `find` text occurs {txt.count(m['find'])} times in {m['file']} (needs exactly 1)"
+        open(tgt, "w", encoding="utf-8").write(txt.replace(m["find"], m["replace"]))
+        try:
+            r = verify_unit(unit, root=root, canaries=False, keep=False, isolate_retry=False)
+        except Undecided as e:
+            return "undecided", f"mutant {m['name']}: {e}"
+        obs = [f.obligation for f in r.failures]
+        exp = m.get("expect", "")
+        hit = [o for o in obs if exp in o]
+        if hit:
+            return "killed", hit[0]
+        if r.undecided:
+            return "undecided", f"mutant {m['name']}: {r.undecided[0]}"
+        return "survived", f"mutant {m['name']} ({m.get('breaks', '')}) was NOT detected; failed obligations: {obs[:3]}"
+    finally:
+        rmtree(root)
 
 
 def run_mutants(units, pid):
-    return {"problems": [], "summary": {"mutants": 0}}
+    problems = []
+    summary = {"mutants": 0, "killed": 0, "details": []}
+    for u in units:
+        for m in load_mutants(u):
+            if pid and m.get("properties") and pid not in m["properties"]:
+                continue
+            summary["mutants"] += 1
+            st, info = run_one(u, m)
+            summary["details"].append({"unit": u, "mutant": m["name"], "status": st, "obligation_or_reason": info})
+            if st == "killed":
+                summary["killed"] += 1
+            elif st == "stale":
+                pass    # the repository text changed under the mutant: reported in the summary, decides nothing
+            else:
+                problems.append("selftest: contract too weak or undecided: " + info)
+    return {"problems": problems, "summary": summary}
